@@ -23,6 +23,7 @@ def run(ctx):
     for _ in range(60 if ctx.tier == 'quick' else 600):
         subsets.append(r.sample(rsuite.REPRESENTABLE, r.randint(3, len(rsuite.REPRESENTABLE))))
     per = 2 if ctx.tier == 'quick' else 8
+    remembered = []   # (representation, the space it declared when it was built, member, description): looked at again at the end of the run
     for types in subsets:
         for is_state in (True, False):
             tys = list(types) if is_state or r.random() < 0.5 else list(types) + [gen.TY['Box']]
@@ -47,6 +48,8 @@ def run(ctx):
                         continue
                     gvdebug.reset_gv_debug(None)
                     bad = rsuite.in_space(out, sp)
+                    if len(remembered) < 300 and r.random() < 0.08:
+                        remembered.append((rep, sp, cs, is_state, kind, tys, colors, shape))
                     case = {'types': tys, 'colors': colors, 'shape': shape, 'kind': kind, 'is_state': is_state, 'state': gen.show_state(cs), 'wire_state': cs}
                     if bad:
                         ctx.violation(f'representation `{kind}` outside its declared space at keys {bad}', case)
@@ -57,6 +60,21 @@ def run(ctx):
                     flat, floats = rsuite.flatten_impl(out, sp, is_state)
                     reqs.append(rsuite.request(kind, tys, colors, is_state, cs))
                     metas.append((case, flat, floats, shape, is_state))
+    # a representation built earlier stays inside the space it declared then, whatever other representations (other kinds, other spaces)
+    # were built and used in the meantime
+    for rep, sp, cs, is_state, kind, tys, colors, shape in remembered:
+        gvdebug.reset_gv_debug(True)
+        try:
+            out = rep.convert(wire.mkstate(cs) if is_state else rsuite.as_obs(cs))
+            bad = rsuite.in_space(out, sp) or rsuite.in_space(out, rep.space)
+        except Exception as e:  # noqa: BLE001
+            bad = [f'raised {type(e).__name__}']
+        finally:
+            gvdebug.reset_gv_debug(None)
+        ctx.case(('later', tuple(tys), tuple(colors), shape, kind, is_state, cs), True, None)
+        if bad:
+            ctx.violation(f'representation `{kind}`: after other representations were built and used, a conversion is outside the space declared at construction ({bad})',
+                          {'types': tys, 'colors': colors, 'shape': shape, 'kind': kind, 'is_state': is_state, 'state': gen.show_state(cs)})
     answers = ctx.model(reqs)
     if answers is not None:
         for (case, flat, floats, shape, is_state), ans in zip(metas, answers):
